@@ -47,6 +47,25 @@ struct ReplyStats {
 }
 
 /// Everything C07 and C08 say about one emitted message.
+/// Decoding is a function of the bytes alone: before a well-formed message is decoded, the same thread's decoder is
+/// (for a third of the messages) first handed damaged variants of it — cut by one byte, cut in the middle, end marker
+/// flipped — which it must reject without keeping anything that changes what the well-formed bytes decode to.
+fn damage_before_decode(bytes: &[u8], st: &mut ReplyStats) {
+    if bytes.len() < 6 || hash_of(bytes) % 3 != 0 {
+        return;
+    }
+    let mut flipped = bytes.to_vec();
+    let l = flipped.len();
+    flipped[l - 1] ^= 0x5a;
+    for v in [&bytes[..bytes.len() - 1], &bytes[..bytes.len() / 2 + 2], &flipped[..]] {
+        let mut cur = v;
+        match catch(|| ChitchatMessage::deserialize(&mut cur)) {
+            Ok(_) => st.c.inc("damaged_variants_decoded_first"),
+            Err(p) => st.findings.push(Finding::new(&["C09"], "wire.real_decode_panic", format!("real decoder panicked on a damaged datagram: {p}"))),
+        }
+    }
+}
+
 fn check_emission(cc: &Chitchat, msg: &ChitchatMessage, bytes: &[u8], who: &str, st: &mut ReplyStats) -> Option<(WMsg, Vec<WNodeDelta>)> {
     st.c.inc("messages_checked");
     st.c.max("max_message_len", bytes.len() as u64);
@@ -63,6 +82,7 @@ fn check_emission(cc: &Chitchat, msg: &ChitchatMessage, bytes: &[u8], who: &str,
         st.findings.push(Finding::new(&["C08"], "wire.announced_len", format!("{who}: serialized_len() = {} but {} bytes written", msg.serialized_len(), bytes.len())));
     }
     // real decoder on real encoding
+    damage_before_decode(bytes, st);
     let mut cur = bytes;
     match catch(|| ChitchatMessage::deserialize(&mut cur)) {
         Ok(Ok(m2)) => {
@@ -396,6 +416,55 @@ fn small_budget_sweep(seed: u64, variant: u64, st: &mut ReplyStats) {
     }
 }
 
+/// An entry that can never travel (key + value above the datagram limit although each is a legal <= 65,000 bytes) sits
+/// in the middle of a member's history: every delta must stop right before it — never skip it and go on with the
+/// later, smaller entries (that would leave a hole the receiver can never fill).
+fn oversize_entry_case(seed: u64, variant: u64, base: &str, st: &mut ReplyStats) {
+    let mut rng = rng_from(mix3(seed, variant, 0x0B16));
+    let mut s = mk_node(simple_id("sender", 7000), &NodeOpts::default());
+    let klen = [600usize, 1_000, 5_000, 30_000, 65_000][(variant % 5) as usize];
+    let vlen = if klen >= 30_000 { 40_000 } else { 65_000 };
+    let big_key: String = "K".repeat(klen);
+    let big_val = if variant % 2 == 0 { fit_from(base, 11, vlen, variant) } else { "v".repeat(vlen) };
+    let before = rng.random_range(0..3usize);
+    let after = rng.random_range(1..4usize);
+    let own = variant % 3 != 0;
+    if own {
+        for k in 0..before {
+            s.cc.self_node_state().set(format!("a{k}"), format!("small-{k}"));
+        }
+        s.cc.self_node_state().set(&big_key, &big_val);
+        for k in 0..after {
+            s.cc.self_node_state().set(format!("z{k}"), format!("small-{k}"));
+        }
+    } else {
+        let id = mk_wid("member-big", 0, addr(7100));
+        let mut kvs = vec![];
+        let mut ver = 0u64;
+        for k in 0..before {
+            ver += 1;
+            kvs.push((format!("a{k}"), format!("small-{k}"), ver, 0u8));
+        }
+        ver += 1;
+        kvs.push((big_key.clone(), big_val.clone(), ver, 0));
+        for k in 0..after {
+            ver += 1;
+            kvs.push((format!("z{k}"), format!("small-{k}"), ver, [0u8, 1, 2][k % 3]));
+        }
+        let kvs: Vec<_> = kvs.into_iter().map(|(k, v, ver, st_)| (k, if st_ == 1 { String::new() } else { v }, ver, st_)).collect();
+        if install_member(&mut s.cc, "c", &id, 1, 0, &kvs, ver).is_err() {
+            st.c.inc("oversize_install_failed");
+            return;
+        }
+    }
+    st.c.inc("oversize_entry_cases");
+    for mode in 0..2u8 {
+        let d = random_peer_digest(&mut rng, &s.cc, mode);
+        exercise_replies(&mut s, &d, st, &format!("oversize-entry variant {variant} digest-mode {mode}"));
+        exercise_budgets(&s, &d, &[100, 1_000, 65_503, 65_507], st, &format!("oversize-entry variant {variant}"));
+    }
+}
+
 fn run_c07_case(seed: u64, i: u64, base: &str, rt: &tokio::runtime::Runtime) -> ReplyStats {
     let mut st = ReplyStats { findings: vec![], c: Counters::default(), sample: None, hashes: vec![] };
     let mut rng = rng_from(mix3(seed, i, 0xC07));
@@ -441,13 +510,18 @@ pub fn check_c07(args: &Args) -> Outcome {
     let nfit = args.n(240, 6_000);
     let seed = args.seed;
     let nsmall = args.n(60, 3_000);
-    let res = par_run(n + nfit + nsmall, args.threads, |i| {
+    let nover = args.n(30, 1_500);
+    let res = par_run(n + nfit + nsmall + nover, args.threads, |i| {
         if deadline.expired() {
             return None;
         }
         let rt = paused_rt();
         let _g = rt.enter();
-        if i >= n + nfit {
+        if i >= n + nfit + nsmall {
+            let mut st = ReplyStats { findings: vec![], c: Counters::default(), sample: None, hashes: vec![] };
+            oversize_entry_case(seed, i - n - nfit - nsmall, &base, &mut st);
+            Some(st)
+        } else if i >= n + nfit {
             let mut st = ReplyStats { findings: vec![], c: Counters::default(), sample: None, hashes: vec![] };
             small_budget_sweep(seed, i - n - nfit, &mut st);
             Some(st)
@@ -501,8 +575,8 @@ pub fn check_c07(args: &Args) -> Outcome {
             }
         }
     }
-    if done < n + nfit + nsmall {
-        ev.inconclusive.push(format!("wall-clock watchdog: {} of {} cases not generated", n + nfit + nsmall - done, n + nfit + nsmall));
+    if done < n + nfit + nsmall + nover {
+        ev.inconclusive.push(format!("wall-clock watchdog: {} of {} cases not generated", n + nfit + nsmall + nover - done, n + nfit + nsmall + nover));
     }
     // every reply of whole simulated clusters (members crash, are scheduled for deletion and removed there)
     let e1 = crate::e1::run_e1(args, "C07", &deadline);
@@ -512,7 +586,7 @@ pub fn check_c07(args: &Args) -> Outcome {
     ev.extra.insert("cases".into(), json!(ev.evaluations));
     ev.extra.insert("e1_traces".into(), json!(e1.traces));
     ev.evaluations = ev.counters.get("messages_checked") + ev.counters.get("budgeted_deltas") + ev.counters.get("datagrams_emitted");
-    ev.rule = "case = seeded sender state (0-40 members, 0-300 keys, value lengths incl. 16,383..16,385 / 32,768 / 40-65 KB, payload classes constant / english / printable / 7-bit / near-incompressible UTF-8) x 3 peer digests x {SYN-ACK, ACK, 18 budgets}; exact-fit sweeps re-write the last key byte by byte (+-40) around the length where it stops fitting; small-budget sweeps try every budget 100..700 on members whose delta is a header plus a lone max-version op or tiny entries; distinct = distinct emitted byte strings (hash); all are non-trivial (each is a reply computed by the real code and parsed by the independent decoder)".into();
+    ev.rule = "case = seeded sender state (0-40 members, 0-300 keys, value lengths incl. 16,383..16,385 / 32,768 / 40-65 KB, payload classes constant / english / printable / 7-bit / near-incompressible UTF-8) x 3 peer digests x {SYN-ACK, ACK, 18 budgets}; exact-fit sweeps re-write the last key byte by byte (+-40) around the length where it stops fitting; oversize-entry cases put an entry that can never travel (key + value > 65,507) in the middle of a history; small-budget sweeps try every budget 100..700 on members whose delta is a header plus a lone max-version op or tiny entries; distinct = distinct emitted byte strings (hash); all are non-trivial (each is a reply computed by the real code and parsed by the independent decoder)".into();
     ev.assumptions = vec!["own digest leaves >= 100 bytes (enforced by the generators)".into(), "zstd treated as a black box; only framing is independently decoded".into()];
     let nothing = ev.counters.get("messages_checked") == 0;
     Outcome { evidence: ev, violations, nothing_observed: nothing }
@@ -623,6 +697,7 @@ fn independent_to_real(seed: u64, i: u64, base: &str) -> ReplyStats {
     st.c.inc(&format!("independent_{}", codec::msg_kind(&w)));
     st.sample = Some(json!({"case": i, "kind": codec::msg_kind(&w), "digest_entries": dvec.len(), "ops": ops.len(), "bytes": bytes.len(), "plan": format!("{:?}", plan).chars().take(60).collect::<String>()}));
     st.hashes.push(hash_of(&bytes[..]));
+    damage_before_decode(&bytes, &mut st);
     let mut cur = &bytes[..];
     match catch(|| ChitchatMessage::deserialize(&mut cur)) {
         Ok(Ok(m)) => {
